@@ -1,6 +1,6 @@
 (* Lemmas about Model.JsepMid: list helpers, find_upd / satisfy, the invariant
    "set mids of the transceivers are pairwise distinct" over all histories. *)
-From Coq Require Import List ZArith String Ascii Bool Lia.
+From Coq Require Import List ZArith String Ascii Bool Lia ZifyBool.
 Import ListNotations.
 From Verif Require Import Common.Base Common.JsepNumeral Model.JsepMid Model.JsepMidSpec.
 Open Scope string_scope.
@@ -337,6 +337,121 @@ Proof.
   destruct (start_senders (has_codecs s) (trs s)) as [l e]. exact H.
 Qed.
 
+(* ---------- CreateOffer's numbering: two passes ---------- *)
+Lemma bump_ge g m : (g <= bump g m)%Z.
+Proof. unfold bump. destruct (atoi m) as [n|]; [|lia]. destruct (Z.gtb n g) eqn:E; [|lia]. apply Z.gtb_lt in E. lia. Qed.
+Lemma bump_covers g m n : atoi m = Some n -> (n <= bump g m)%Z.
+Proof. unfold bump. intros ->. destruct (Z.gtb n g) eqn:E; [lia|]. rewrite Z.gtb_ltb in E. apply Z.ltb_ge in E. exact E. Qed.
+
+Lemma bump_trs_ge l : forall g, (g <= bump_trs g l)%Z.
+Proof.
+  unfold bump_trs. induction l as [|t rest IH]; intro g; cbn [fold_left]; [lia|].
+  pose proof (bump_ge g (t_mid t)). specialize (IH (bump g (t_mid t))). lia.
+Qed.
+Lemma bump_trs_covers l : forall g t n, In t l -> atoi (t_mid t) = Some n -> (n <= bump_trs g l)%Z.
+Proof.
+  unfold bump_trs. induction l as [|x rest IH]; intros g t n Hin Hn; [destruct Hin|].
+  cbn [fold_left]. destruct Hin as [<-|Hin].
+  - pose proof (bump_covers g _ _ Hn). pose proof (bump_trs_ge rest (bump g (t_mid x))) as Hge.
+    unfold bump_trs in Hge. lia.
+  - eapply IH; eauto.
+Qed.
+
+Lemma bump_remote_ge g d : (g <= bump_remote g d)%Z.
+Proof.
+  unfold bump_remote. destruct d as [d|]; [|lia]. revert g.
+  induction (r_secs d) as [|r rest IH]; intro g; cbn [fold_left]; [lia|].
+  pose proof (bump_ge g (r_mid r)). specialize (IH (bump g (r_mid r))). lia.
+Qed.
+Lemma bump_remote_covers d : forall g r n,
+  In r (r_secs d) -> atoi (r_mid r) = Some n -> (n <= bump_remote g (Some d))%Z.
+Proof.
+  unfold bump_remote. induction (r_secs d) as [|x rest IH]; intros g r n Hin Hn; [destruct Hin|].
+  cbn [fold_left]. destruct Hin as [<-|Hin].
+  - pose proof (bump_covers g _ _ Hn).
+    pose proof (bump_remote_ge (bump g (r_mid x)) (Some {| r_secs := rest; r_group := None |})) as Hge.
+    unfold bump_remote in Hge. cbn [r_secs] in Hge. lia.
+  - eapply IH; eauto.
+Qed.
+
+(* what CreateOffer has seen before it numbers the first transceiver *)
+Lemma offer_start_ge_gmid s : (gmid s <= offer_start s)%Z.
+Proof.
+  unfold offer_start.
+  pose proof (bump_remote_ge (gmid s) (cur_remote s)).
+  pose proof (bump_remote_ge (bump_remote (gmid s) (cur_remote s)) (pend_remote s)).
+  pose proof (bump_trs_ge (trs s) (bump_remote (bump_remote (gmid s) (cur_remote s)) (pend_remote s))). lia.
+Qed.
+Lemma offer_start_covers_trs s t n : In t (trs s) -> atoi (t_mid t) = Some n -> (n <= offer_start s)%Z.
+Proof. unfold offer_start. intros. eapply bump_trs_covers; eauto. Qed.
+Lemma offer_start_covers_cur s d r n :
+  cur_remote s = Some d -> In r (r_secs d) -> atoi (r_mid r) = Some n -> (n <= offer_start s)%Z.
+Proof.
+  unfold offer_start. intros E Hin Hn. rewrite E.
+  pose proof (bump_remote_covers d (gmid s) r n Hin Hn).
+  pose proof (bump_remote_ge (bump_remote (gmid s) (Some d)) (pend_remote s)).
+  pose proof (bump_trs_ge (trs s) (bump_remote (bump_remote (gmid s) (Some d)) (pend_remote s))). lia.
+Qed.
+Lemma offer_start_covers_pend s d r n :
+  pend_remote s = Some d -> In r (r_secs d) -> atoi (r_mid r) = Some n -> (n <= offer_start s)%Z.
+Proof.
+  unfold offer_start. intros E Hin Hn. rewrite E.
+  pose proof (bump_remote_covers d (bump_remote (gmid s) (cur_remote s)) r n Hin Hn).
+  pose proof (bump_trs_ge (trs s) (bump_remote (bump_remote (gmid s) (cur_remote s)) (Some d))). lia.
+Qed.
+
+Lemma offer_alloc_trs s : trs (offer_alloc s) = snd (alloc_mids (offer_start s) (trs s)).
+Proof. unfold offer_alloc. destruct (alloc_mids _ (trs s)). reflexivity. Qed.
+
+(* the second pass, started above every numeral that is already in use, keeps
+   the mids pairwise distinct (pre: what has been passed over or given out) *)
+Lemma alloc_mids_nodup l : forall g pre,
+  (forall m n, In m (pre ++ set_mids l) -> atoi m = Some n -> (n <= g)%Z) ->
+  alloc_nowrap g l = true ->
+  NoDup (pre ++ set_mids l) ->
+  NoDup (pre ++ set_mids (snd (alloc_mids g l))).
+Proof.
+  induction l as [|t rest IH]; intros g pre Hb Hnw Hnd; [exact Hnd|].
+  cbn [alloc_mids alloc_nowrap] in *. destruct (mid_unset t) eqn:U.
+  - apply andb_true_iff in Hnw. destruct Hnw as [Hr Hnw]. rewrite (wrap_int_id _ Hr).
+    destruct (alloc_mids (g + 1) rest) as [g2 rest'] eqn:E. cbn [snd].
+    unfold mid_unset in U. rewrite set_mids_cons in Hb, Hnd. rewrite U in Hb, Hnd.
+    rewrite set_mids_cons. cbn [with_mid t_mid]. rewrite (eqb_empty_false _ (itoa_nonempty (g + 1))).
+    replace (pre ++ itoa (g + 1) :: set_mids rest') with ((pre ++ [itoa (g + 1)]) ++ set_mids rest')
+      by (rewrite <- app_assoc; reflexivity).
+    specialize (IH (g + 1)%Z (pre ++ [itoa (g + 1)])). rewrite E in IH. cbn [snd] in IH. apply IH.
+    + intros m n Hin Hn. rewrite <- app_assoc in Hin. apply in_app_or in Hin. destruct Hin as [Hin|[<-|Hin]].
+      * specialize (Hb m n (in_or_app _ _ _ (or_introl Hin)) Hn). lia.
+      * rewrite (atoi_itoa _ Hr) in Hn. injection Hn as <-. lia.
+      * specialize (Hb m n (in_or_app _ _ _ (or_intror Hin)) Hn). lia.
+    + exact Hnw.
+    + rewrite <- app_assoc. cbn [List.app].
+      apply NoDup_Add with (a := itoa (g + 1)) (l := pre ++ set_mids rest); [apply Add_app|].
+      split; [exact Hnd|]. intro Hc.
+      apply (itoa_fresh g (itoa (g + 1)) Hr); [|reflexivity].
+      intros n Hn. exact (Hb _ n Hc Hn).
+  - destruct (alloc_mids g rest) as [g2 rest'] eqn:E. cbn [snd].
+    unfold mid_unset in U. rewrite set_mids_cons in Hb, Hnd. rewrite U in Hb, Hnd.
+    rewrite set_mids_cons, U.
+    replace (pre ++ t_mid t :: set_mids rest') with ((pre ++ [t_mid t]) ++ set_mids rest')
+      by (rewrite <- app_assoc; reflexivity).
+    specialize (IH g (pre ++ [t_mid t])). rewrite E in IH. cbn [snd] in IH. apply IH.
+    + intros m n Hin Hn. rewrite <- app_assoc in Hin. exact (Hb m n Hin Hn).
+    + exact Hnw.
+    + rewrite <- app_assoc. exact Hnd.
+Qed.
+
+(* the characterisation of numbering_ok: from a state whose transceiver mids
+   are pairwise distinct the numbering loop produces a duplicate only if the
+   counter overflows *)
+Lemma numbering_ok_lemma s : NoDup (set_mids (trs s)) -> offer_nowrap s = true -> numbering_ok s.
+Proof.
+  intros Hnd Hnw. unfold numbering_ok. rewrite offer_alloc_trs.
+  apply (alloc_mids_nodup (trs s) (offer_start s) []); auto.
+  intros m n Hin Hn. cbn [List.app] in Hin. apply in_set_mids in Hin. destruct Hin as [_ (t & Ht & <-)].
+  eapply offer_start_covers_trs; eauto.
+Qed.
+
 (* remote descriptions held by the state *)
 Definition remotes_ok (s : st) : Prop :=
   (forall d, cur_remote s = Some d -> rdesc_ok d) /\ (forall d, pend_remote s = Some d -> rdesc_ok d).
@@ -428,7 +543,7 @@ Qed.
 Lemma step_inv s o :
   inv s ->
   (forall ty d, o = SetRemote ty d -> rdesc_ok d) ->
-  (o = CreateOffer -> numbering_ok s) ->
+  (o = CreateOffer -> offer_nowrap s = true) ->
   inv (fst (step s o)).
 Proof.
   intros Hinv Hrd Hnum. pose proof Hinv as [Hnd [Hc Hp]]. destruct o; cbn [step].
@@ -460,7 +575,7 @@ Proof.
     pose proof (create_offer_mids s) as Hm. pose proof (create_offer_remote s) as [Hr1 Hr2].
     rewrite E in Hm, Hr1, Hr2. cbn [fst] in *.
     split.
-    + rewrite (set_mids_ext _ _ Hm). exact (Hnum eq_refl).
+    + rewrite (set_mids_ext _ _ Hm). apply numbering_ok_lemma; [exact Hnd|exact (Hnum eq_refl)].
     + split; intros d Hd; [apply Hc|apply Hp]; congruence.
   - (* CreateAnswer *)
     destruct (create_answer s) as [s' r] eqn:E. cbn [fst].
@@ -480,7 +595,7 @@ Qed.
 Lemma trace_from_inv ops : forall s0,
   inv s0 ->
   (forall ty d, In (SetRemote ty d) ops -> rdesc_ok d) ->
-  (forall s out s', In (s, CreateOffer, out, s') (trace_from s0 ops) -> numbering_ok s) ->
+  (forall s out s', In (s, CreateOffer, out, s') (trace_from s0 ops) -> offer_nowrap s = true) ->
   forall s o out s', In (s, o, out, s') (trace_from s0 ops) -> inv s /\ inv s'.
 Proof.
   induction ops as [|o rest IH]; intros s0 H0 Hrd Hnum s o' out s' Hin; [destruct Hin|].
